@@ -3185,9 +3185,8 @@ class Circuit(Unitary, StateVectorMap, Collection[Operation]):
         if self._gate_info != rhs._gate_info:
             return False
 
-        for r1, r2 in zip(self.radixes, rhs.radixes):
-            if r1 != r2:
-                return False
+        if self.radixes != rhs.radixes:
+            return False
 
         return all(op1 == op2 for op1, op2 in zip(self, rhs))
 
